@@ -914,6 +914,73 @@ fn sequences(finals: &[Step], decoys: &[Step]) -> Vec<Vec<Step>> {
 }
 
 // ------------------------------------------------------------------------------------------
+// api_trait_twin: `smartcore::api::SupervisedEstimator::fit` / `Predictor::predict` (the entry points of
+// `cross_validate` and every generic caller) give exactly what the inherent `fit` / `predict` give, on
+// the training matrix and on the query rows, for the model fitted either way (Ok/Err included)
+// ------------------------------------------------------------------------------------------
+const TWIN: &str = twin::ORACLE;
+
+fn twin_check(c: &Case) -> Option<twin::Diff> {
+    if c.x.is_empty() || c.x[0].is_empty() || c.q.is_empty() {
+        return None;
+    }
+    let x = dense(&c.x);
+    let y: Vec<f64> = c.y.iter().map(|l| *l as f64).collect();
+    let q = dense(&c.q);
+    let params = guard(|| make_params(c)).ok()?;
+    let probes = [("the training matrix", &x), ("the query rows", &q)];
+    macro_rules! run {
+        ($ty:ty, $p:expr) => {{
+            let p = $p;
+            twin::check(
+                "SupervisedEstimator",
+                "Predictor",
+                "predict",
+                || twin::fit_sup::<$ty, _, _, _>(&x, &y, p.clone()),
+                || <$ty>::fit(&x, &y, p.clone()),
+                |m: &$ty, z: &DenseMatrix<f64>| twin::predict(m, z),
+                |m: &$ty, z: &DenseMatrix<f64>| m.predict(z),
+                &probes,
+                |m: &$ty| serde_json::to_string(m).unwrap_or_default(),
+                true,
+            )
+        }};
+    }
+    match params {
+        Params::G(p) => run!(GaussianNB<f64, DenseMatrix<f64>>, p),
+        Params::M(p) => run!(MultinomialNB<f64, DenseMatrix<f64>>, p),
+        Params::B(p) => run!(BernoulliNB<f64, DenseMatrix<f64>>, p),
+        Params::C(p) => run!(CategoricalNB<f64, DenseMatrix<f64>>, p),
+    }
+}
+
+fn twin_search(out: &mut Out, c: &Case) {
+    let mut kd: Vec<f64> = c.x.iter().flatten().cloned().collect();
+    kd.extend(c.y.iter().map(|l| *l as f64));
+    kd.extend(c.q.iter().flatten().cloned());
+    kd.push(c.alpha);
+    kd.push(-7.0); // apart from the same case in the definition-based search
+    out.eval(hash_f64s(&kd), true);
+    out.count(&format!("twin:{}:cases", c.v.name()));
+    if c.build.is_some() {
+        out.count("twin:parameters-through-the-builder");
+    }
+    if c.v == Variant::B {
+        out.count(&format!("twin:{}", c.family.trim_start_matches("builder:")));
+    }
+    if twin_check(c).is_some() {
+        let small = shrink(c, TWIN);
+        if let Some(d) = twin_check(&small) {
+            let mut w = small.to_json();
+            w["oracle"] = json!(TWIN);
+            w["differing_call"] = json!(d.call);
+            out.count(&format!("twin:failing:{}", c.v.name()));
+            out.fail(TWIN, &format!("{}NB: {}: {}", c.v.name(), d.call, d.what), w);
+        }
+    }
+}
+
+// ------------------------------------------------------------------------------------------
 // correspondence terms
 // ------------------------------------------------------------------------------------------
 fn coq_nmat(m: &[Vec<usize>]) -> String {
@@ -1317,6 +1384,9 @@ fn still_fails(c: &Case, oracle: &str) -> bool {
     if c.x.is_empty() || c.q.is_empty() || c.x[0].is_empty() {
         return false;
     }
+    if oracle == TWIN {
+        return twin_check(c).is_some();
+    }
     if oracle == BUILDER {
         if c.build.is_none() {
             return false;
@@ -1604,9 +1674,14 @@ fn replay(path: &str) -> i32 {
     let c0 = c.literal();
     let io = run_impl(&c0);
     let v = evaluate(&c0, &io);
-    if !v.failures.is_empty() || builder_failure.is_some() {
+    // the api-trait entry points against the inherent methods (parameters as recorded)
+    let twin_failure = twin_check(&c);
+    if !v.failures.is_empty() || builder_failure.is_some() || twin_failure.is_some() {
         for (o, w) in &v.failures {
             println!("  {}: {}", o, w);
+        }
+        if let Some(d) = &twin_failure {
+            println!("  {}: {}NB: {}: {}", TWIN, c.v.name(), d.call, d.what);
         }
         if let Some(w) = &builder_failure {
             println!("  {}: {}", BUILDER, w);
@@ -1628,7 +1703,7 @@ fn main() {
     let mut rng = Rng::new(a.seed);
     let mut out = Out::new(
         "C11",
-        "search case = (variant, training matrix, integer labels, alpha, optional user priors, optional threshold, query rows), parameters as a struct literal; non-trivial: at least two non-empty classes with unequal counts; distinct by hash of (x, y, queries, alpha). builder case = such a case with non-default requested values plus one sequence of builder calls on Default::default() (every permutation of the calls, and every permutation with one earlier overridden call of the same method at every earlier position); non-trivial: requested values differ from the defaults and at least two calls; distinct by hash of (x, y, queries, call sequence)",
+        "search case = (variant, training matrix, integer labels, alpha, optional user priors, optional threshold, query rows), parameters as a struct literal; non-trivial: at least two non-empty classes with unequal counts; distinct by hash of (x, y, queries, alpha). builder case = such a case with non-default requested values plus one sequence of builder calls on Default::default() (every permutation of the calls, and every permutation with one earlier overridden call of the same method at every earlier position); non-trivial: requested values differ from the defaults and at least two calls; distinct by hash of (x, y, queries, call sequence). api-trait twin case = a search or builder case whose fit and predict go through smartcore::api::{SupervisedEstimator, Predictor} and through the inherent methods (training matrix and query rows, both fitted models); all results must coincide bit for bit",
     );
     out.max_samples = 5; // one per variant and one builder case
     let variants = [Variant::G, Variant::M, Variant::B, Variant::C];
@@ -1714,6 +1789,22 @@ fn main() {
             if i < 1 && *v == Variant::B {
                 let seqs = sequences(&finals, &decoys);
                 out.sample(c.built(&seqs[seqs.len() - 1]).to_json());
+            }
+        }
+    }
+    // ---- search: api-trait twins (last, so that the streams of the sections above are unchanged) ----
+    for i in 0..(if a.thorough { 400 } else { 40 }) {
+        for v in variants.iter() {
+            let mut c = gen_case(&mut rng, *v, &full, true);
+            if i % 10 == 9 {
+                c = add_duplicate_class(&mut rng, &c);
+            }
+            twin_search(&mut out, &c);
+            if i % 2 == 0 {
+                let (c, finals, decoys) = gen_builder_case(&mut rng, *v, &full);
+                let seqs = sequences(&finals, &decoys);
+                let s = rng.pick(&seqs).clone();
+                twin_search(&mut out, &c.built(&s));
             }
         }
     }
